@@ -338,8 +338,13 @@ Crash ==
     /\ pend' = IF pc \in {"files", "write", "dvwrite", "append", "publish"} THEN cur.eff ELSE pend
     /\ UNCHANGED <<dvars, adb, bvars>>
 
+\* SecondaryStorage::shutdown signals the compactor and joins it; the compactor looks at the signal only after
+\* a pass over all tables, so every shutdown is preceded by the compactor visits that are due (the Compact
+\* steps themselves are ordinary steps above)
+CompactDue(n) == cat[n].k = "table" /\ Cardinality({x \in live : x[1] = cat[n].id}) >= 2
 Shutdown ==
     /\ Idle
+    /\ \A n \in Names : ~CompactDue(n)
     /\ Volatile0
     /\ UNCHANGED <<dvars, avars, bvars>>
 
